@@ -1628,7 +1628,9 @@ Lemma allocate_mini_sector_unfold : forall value s,
            if lenN (c_ids c) * (slen s / 4) <=? lenN (minifat s)
            then mini_extend_branch (minifat_start s) else ret tt) ;;
         do s <- get;
-        append_mini_sector ;; set_minifat (lenN (minifat s)) value ;; ret (lenN (minifat s))
+        do r <- root_entry;
+        (if d_len r <? (lenN (minifat s) + 1) * MINI_SECTOR_LEN then append_mini_sector else ret tt) ;;
+        set_minifat (lenN (minifat s)) value ;; ret (lenN (minifat s))
       end) s.
 Proof. reflexivity. Qed.
 
